@@ -9,8 +9,8 @@ GROUP = "ratio"
 LEAN_PROPS = "Dashu.Props.C18"
 LEAN_AUDIT = "Dashu.Audit.C18"
 # compositions with other groups' proved files, kept apart from the property's own theorems
-GEN_PROPS = ["Dashu.Props.C18Link", "Dashu.Props.C18Gen", "Dashu.Props.C18Kernels"]
-GEN_AUDIT = ["Dashu.Audit.C18Link", "Dashu.Audit.C18Gen", "Dashu.Audit.C18Kernels"]
+GEN_PROPS = ["Dashu.Props.C18Link", "Dashu.Props.C18Gen", "Dashu.Props.C18Kernels", "Dashu.Props.C18KernelsCmp", "Dashu.Props.C18KernelsFarey"]
+GEN_AUDIT = ["Dashu.Audit.C18Link", "Dashu.Audit.C18Gen", "Dashu.Audit.C18Kernels", "Dashu.Audit.C18KernelsCmp", "Dashu.Audit.C18KernelsFarey"]
 USES_GEN = True
 JOBS = 12
 
@@ -51,6 +51,15 @@ REFINED = ["Repr::simplest_in (continued-fraction descent: soundness, simultaneo
            "proved equal to the model's Int loop for every word size >= 4, state, fuel and ownership form "
            "(Props/C18Kernels.descent_over_proved_kernels), hence terminating with the fraction of minimal numerator and denominator "
            "(kernel_descent_optimal)",
+           "the exit test `num_l < den_l` of that loop (round 8): PartialOrd/Ord for IBig through C05's mirrored integer/src/cmp.rs "
+           "(ibigOrdW: sign match, TypedReprRef::cmp, cmp_same_len / cmp_in_place) on canonical representations is `<` on the values for "
+           "every word size (Props/C18KernelsCmp.ltW_eq, via C14Link.ibig_ord_mirrored); simplestLoopWC = the loop with EVERY operation "
+           "(div_rem, *, +, -, <) on the proved word-level kernels = the model's loop (descent_with_cmp_over_proved_kernels), optimal "
+           "(kernel_descent_with_cmp_optimal)",
+           "the loop of RBig::farey_neighbors over the proved kernels (round 8): fareyLoopW = the loop text with the mediant "
+           "`&left.numerator + &right.numerator` (IBig, C01 ibigAdd), `&left.denominator + &right.denominator` (UBig, C01 TRepr.add) and both "
+           "tests `&next.denominator > limit` (Ord for UBig, C05's mirrored cmp) on canonical representations, proved equal to the model's "
+           "fareyLoop for every word size >= 4, target, limit, fuel, bracket, ownership form (Props/C18KernelsFarey.farey_over_proved_kernels)",
            "where the code's error bounds ARE the rounding set (even base, significand not a power of the base, HalfEven parity "
            "condition): code_set_is_rounding_set_on_class, code_optimal_on_class — the complement of the recorded finding as a theorem",
            "Repr::cmp used by the model (cmpQ) = the regenerated repr_cmp of rational/src/cmp.rs (Props/C18Link.cmpQ_is_regenerated_repr_cmp, "
@@ -66,9 +75,11 @@ FRONTIER = ["the correspondence model <-> code of simplest_from_float (FBig) is 
             "next_up / next_down / an inexact nearest with limits beyond ~3000 are not driven: farey_neighbors is linear in limit "
             "(theorems cover every limit); nearest with multi-word limits is driven on its Exact arm",
             "IBig multiplication / addition / shifts inside the INTERVAL CONSTRUCTION (roundingInterval, scaleQ / powQ of the FBig path, "
-            "the mediant additions of farey_neighbors) and the sign test `num_l < den_l` of the descent are Lean Int arithmetic "
-            "(contract of C01 / C14; C04Link.ring_contracts_are_proved_kernels is the composition for the same operations); the descent "
-            "loop itself (div_rem, *, +, -) and the gcd are linked by theorem (Props/C18Kernels: descent_over_proved_kernels)"]
+            "the additions / multiplications of next_up / next_down / nearest around farey_neighbors: R.add, R.sub, addSubInt) are Lean Int arithmetic "
+            "(contract of C01; the mediant additions and denominator tests of the farey_neighbors loop itself are linked since round 8, "
+            "Props/C18KernelsFarey.farey_over_proved_kernels; C04Link.ring_contracts_are_proved_kernels is the composition for the same operations); the descent "
+            "loop itself (div_rem, *, +, -, and since round 8 its exit test `num_l < den_l`) and the gcd are linked by theorem "
+            "(Props/C18Kernels: descent_over_proved_kernels; Props/C18KernelsCmp: descent_with_cmp_over_proved_kernels)"]
 RULE = ("simplest_in: end points from {small fractions, neighbours in a Farey sequence, convergents of a random continued "
         "fraction (very narrow intervals, large denominators), integers, zero, huge/tiny, numerators/denominators of EVERY bit "
         "length 1..200 and 2^j, 2^j+-1 at word/double-word boundaries} in both orders, equal, negative, "
